@@ -39,6 +39,8 @@ type Node struct {
 	ArgType    string // sizeof(type)
 	Ref        *Node  // referencedDecl (shallow: ID, Kind, Name, Type)
 	RefMember  string // referencedMemberDecl id
+	DeclID     string // LabelStmt: id of its LabelDecl
+	TargetID   string // GotoStmt: id of the target LabelDecl
 	File       string
 	Line       int
 	Col        int
@@ -225,7 +227,7 @@ func (tu *TU) applyLoc(m map[string]any, ls *locState, n *Node, set bool) {
 func (tu *TU) conv(m map[string]any, parent *Node, ls *locState) *Node {
 	n := &Node{ID: str(m, "id"), Kind: str(m, "kind"), Name: str(m, "name"), Parent: parent,
 		Opcode: str(m, "opcode"), Value: str(m, "value"), CastKind: str(m, "castKind"), TagUsed: str(m, "tagUsed"),
-		Storage: str(m, "storageClass"), RefMember: str(m, "referencedMemberDecl")}
+		Storage: str(m, "storageClass"), RefMember: str(m, "referencedMemberDecl"), DeclID: str(m, "declId"), TargetID: str(m, "targetLabelDeclId")}
 	if t, ok := m["type"].(map[string]any); ok {
 		n.Type, n.Desugar = str(t, "qualType"), str(t, "desugaredQualType")
 	}
